@@ -455,6 +455,9 @@ class _ScopeContext:
 
                 gen.send(False)  # we processed this node here so don't recurse into it
 
+            elif a.__class__ is Lambda:  # a scope of its own, a NamedExpr.target in there binds in the Lambda and not in the scope enclosing the Comprehension
+                gen.send(False)
+
 _SCOPE_WALK_FUNCS = {  # the boolean indicates whether it is a normal function or a generator
     FunctionDef:      (_ScopeContext.stack_funcdef, False),
     AsyncFunctionDef: (_ScopeContext.stack_funcdef, False),
